@@ -937,7 +937,8 @@ fn multi_case(seed: u64, _thorough: bool) -> (Vec<(String, String)>, Report) {
     let mut rep = Report::default();
     let mut r = Rng::new(seed);
     let t = if r.chance(1, 4) { *r.pick(&[1usize, 2, 15, 16]) } else { 1 + r.below(16) as usize };
-    let q = if r.chance(1, 6) { *r.pick(&[0i32, 1, 10, 11]) } else { 2 + r.below(8) as i32 };
+    // a q7..q9 hasher is 8..32 MiB per thread and 16 cases run side by side: keep those for few threads
+    let q = if t > 4 { *r.pick(&[0i32, 1, 2, 3, 4, 5, 5, 6]) } else if r.chance(1, 4) { *r.pick(&[0i32, 1, 10, 11]) } else { 2 + r.below(8) as i32 };
     let lgwin = 10 + r.below(if q >= 10 { 7 } else { 11 }) as i32;
     let n = match r.below(6) { 0 => 0, 1 => r.below(40) as usize, _ => r.below(if q >= 10 { 24_000 } else { 200_000 }) as usize };
     let data = gen_input(&mut r, n);
@@ -985,7 +986,7 @@ fn ffi_multi_case(seed: u64, _thorough: bool) -> (Vec<(String, String)>, Report)
     let mut rep = Report::default();
     let mut r = Rng::new(seed);
     let t = if r.chance(1, 3) { 1 } else { 1 + r.below(18) as usize };
-    let q = if r.chance(1, 6) { *r.pick(&[0u32, 1, 10, 11]) } else { 2 + r.below(8) as u32 };
+    let q = if t > 4 { *r.pick(&[0u32, 1, 2, 3, 4, 5, 5, 6]) } else if r.chance(1, 4) { *r.pick(&[0u32, 1, 10, 11]) } else { 2 + r.below(8) as u32 };
     let lgwin = 10 + r.below(if q >= 10 { 7 } else { 11 }) as u32;
     let n = match r.below(6) { 0 => 0, 1 => r.below(40) as usize, _ => r.below(if q >= 10 { 24_000 } else { 150_000 }) as usize };
     let data = gen_input(&mut r, n);
